@@ -80,6 +80,13 @@ def permitted_variants(quick):
         vs += [{'CHAIN': i, 'EXP': e} for e in pick]
     return vs
 SWEEP = ['default', 'kissat', 'cvc5int', 'z3']
+# base_uint<256>::operator/= is a restoring division: one loop iteration per quotient bit, i.e. bits(dividend) - bits(divisor) + 1 iterations.
+# dividend <= mantissa(23 bits) * 4*timespan (23 bits) * 256^(EXP-3); divisor = timespan (>= 17 bits). The bound is checked by --unwinding-assertions.
+DIVFN = '_ZN9base_uintILj256EEdVERKS0_'
+def div_unwind(v):
+    e = v.get('EXP', 3)
+    k = 8 * max(e - 3, 0) + 46 - 17 + 3
+    return ','.join('%s.%d:%d' % (DIVFN, i, k) for i in range(24))
 HARNESSES = [
     H('compact_decode', 'c07.cpp', 'h_compact_decode', link=LINK, defines=DEFS, functions=FN, unwind=40,
       bounds='all 2^32 nBits values (full input domain)', timeout=300, backends=['default', 'kissat']),
@@ -87,12 +94,18 @@ HARNESSES = [
       bounds='all 2^256 values, both sign arguments (full input domain)', timeout=300, backends=['default', 'kissat']),
     H('checkpow', 'c07.cpp', 'h_checkpow', link=LINK, defines=DEFS, functions=FN, unwind=40, variants=[{'CHAIN': i} for i in LIMIT_CHAINS],
       bounds='all 2^256 hashes x all 2^32 nBits, for each distinct powLimit of the built-in chains', timeout=300, backends=['default', 'kissat']),
-    H('retarget', 'c07.cpp', 'h_retarget', link=LINK, defines=DEFS, functions=FN, unwind=300, variants=retarget_variants(True), tvariants=retarget_variants(False),
+    H('retarget', 'c07_retarget.cpp', 'h_retarget', link=LINK, ubsan=False, defines=DEFS, functions=FN, unwind=100, unwindset=div_unwind, variants=retarget_variants(True), tvariants=retarget_variants(False),
       bounds='previous target: concrete compact exponent per variant (quick: 7 exponents on main incl. the three highest, 3 per other chain; thorough: every exponent with a target in (0,powLimit]), '
              '23-bit mantissa symbolic; block times: all 32-bit first/last times (signed difference, both clamps); BIP94 chains: one real period of 4 blocks (spacing scaled to timespan/4), other blocks\' bits arbitrary',
       assumptions=['previous target in (0, powLimit] (guaranteed by CheckProofOfWork on every indexed header)', 'block times are 32-bit header fields (nFirstBlockTime is passed from CBlockIndex::GetBlockTime)'],
       timeout=300, backends=SWEEP),
-    H('permitted', 'c07.cpp', 'h_permitted', link=LINK, defines=DEFS, functions=FN, unwind=300, variants=permitted_variants(True), tvariants=permitted_variants(False),
+    H('permitted', 'c07_retarget.cpp', 'h_permitted', link=LINK, ubsan=False, defines=DEFS, functions=FN, unwind=100, unwindset=div_unwind, variants=permitted_variants(True), tvariants=permitted_variants(False),
       bounds='old target: concrete compact exponent per variant, mantissa symbolic, in (0,powLimit]; new bits: all 2^32 values; heights 0..2^31-1',
       timeout=300, backends=SWEEP),
+    H('nextwork', 'c07_next.cpp', 'h_nextwork', link=LINK, defines=DEFS, functions=FN, unwind=100,
+      variants=[{'CHAIN': i, 'LAST': l, 'SPACING_OVERRIDE': CHAINS[i]['timespan'] // 4} for i in sorted(set([0, 1, len(CHAINS) - 1])) for l in (2, 3, 6, 7)],
+      tvariants=[{'CHAIN': i, 'LAST': l, 'SPACING_OVERRIDE': CHAINS[i]['timespan'] // 4} for i in range(len(CHAINS)) for l in (1, 2, 3, 4, 5, 6, 7, 11)],
+      stubs=['CalculateNextWorkRequired replaced by an argument recorder with unconstrained result in the nextwork harness only (its arithmetic is the subject of the retarget harness)'],
+      bounds='real CBlockIndex chains of 3..8 blocks (thorough up to 12) with the retarget interval shrunk to 4 blocks (spacing := timespan/4, other constants per chain); every block\'s nBits (limit or arbitrary) and nTime, and the new header\'s time symbolic',
+      timeout=300),
 ]
